@@ -393,28 +393,32 @@ example : hopOp 0 1 ⟨2, 0⟩ = [([(0, 1), (1, 0)], ⟨2, 0⟩), ([(1, 1), (0, 
 
 /-! ### the diagonal-Coulomb commutator: one-body with one-body -/
 
-/-- `dc_commutator_sound`, PARTIAL.  Full statement (open): for all admissible operators,
+/-- `dc_commutator_sound` is PARTIAL: the full statement (open) is, for all admissible operators,
 `⟨u| commutator_ordered_diagonal_coulomb_with_two_body_operator(A, B, prior) |s⟩ =
  ⟨u| prior |s⟩ + Σ_{a ∈ A, b ∈ B} c_a c_b ⟨u| [a, b] |s⟩`.
-Proved here: the helper `_commutator_one_body_with_one_body` adds exactly `coef · [a, b]` to
-`prior_terms` for the index patterns with pairwise distinct modes — chain `i^ j, j^ l ↦ i^ l`, chain
-`i^ j, l^ i ↦ -(l^ j)`, and four distinct modes (nothing added, the terms commute).
-Not proved: coinciding modes (`i^ i`, double pairing `i^ j, j^ i ↦ n_i - n_j`), the one-body /
-two-body and two-body / two-body helpers (`dcOneTwo`, `dcTwoTwo`, `addThreeBody`), and the sum over
-the term pairs; these are covered exhaustively on 4 modes by the correspondence run and the oracle. -/
-theorem dc_one_body_one_body_sound_partial (i j k l : Nat) (coef : GQ) (prior : List (List (Nat × Nat) × GQ)) (s u : Nat) :
-    (i ≠ j → l ≠ j → i ≠ l →
-      den (phiF s u) (dcOneOne [(i, 1), (j, 0)] [(j, 1), (l, 0)] coef prior) =
-        den (phiF s u) prior + pairComm s u [(i, 1), (j, 0)] [(j, 1), (l, 0)] coef) ∧
-    (i ≠ j → l ≠ i → l ≠ j →
-      den (phiF s u) (dcOneOne [(i, 1), (j, 0)] [(l, 1), (i, 0)] coef prior) =
-        den (phiF s u) prior + pairComm s u [(i, 1), (j, 0)] [(l, 1), (i, 0)] coef) ∧
-    (i ≠ k → i ≠ l → j ≠ k → j ≠ l →
-      den (phiF s u) (dcOneOne [(i, 1), (j, 0)] [(k, 1), (l, 0)] coef prior) =
-        den (phiF s u) prior + pairComm s u [(i, 1), (j, 0)] [(k, 1), (l, 0)] coef) :=
-  ⟨fun h1 h2 h3 => dcOneOne_chain i j l coef prior h1 h2 h3 s u,
-   fun h1 h2 h3 => dcOneOne_chain' i j l coef prior h1 h2 h3 s u,
-   fun h1 h2 h3 h4 => dcOneOne_disjoint i j k l coef prior h1 h2 h3 h4 s u⟩
+Proved here, completely: the helper `_commutator_one_body_with_one_body`.  For one-body terms
+`a = i^ j`, `b = k^ l` with ANY coincidences among the four modes (number operators `i^ i`, the double
+pairing `i^ j, j^ i ↦ n_i - n_j`, single pairings, shared creation or annihilation mode, disjoint
+modes; only `a = b` is excluded, which the caller skips) it adds exactly `coef · [a, b]` to
+`prior_terms`: every matrix element of the result is that of `prior` plus `coef · ⟨u| ab - ba |s⟩`.
+Not proved: the one-body / two-body and two-body / two-body helpers (`dcOneTwo`, `dcTwoTwo`,
+`addThreeBody`) and the sum over the term pairs; these are covered exhaustively on 4 modes by the
+correspondence run and the oracle. -/
+theorem dc_one_body_one_body_sound (i j k l : Nat) (coef : GQ) (prior : List (List (Nat × Nat) × GQ))
+    (hne : ¬ (i = k ∧ j = l)) (s u : Nat) :
+    den (phiF s u) (dcOneOne [(i, 1), (j, 0)] [(k, 1), (l, 0)] coef prior) =
+      den (phiF s u) prior + pairComm s u [(i, 1), (j, 0)] [(k, 1), (l, 0)] coef :=
+  dcOneOne_sound i j k l coef prior hne s u
+
+/-- `dc_commutator_sound` for ONE-BODY operators (hopping / number Hamiltonians), complete: if every
+term of `A` and of `B` is a one-body term `i^ j`, then for every `prior_terms` every matrix element of
+`commutator_ordered_diagonal_coulomb_with_two_body_operator(A, B, prior)` is
+`⟨u| prior |s⟩ + Σ_{a ∈ A} Σ_{b ∈ B} c_a c_b ⟨u| a b - b a |s⟩` (main double loop included). -/
+theorem dc_commutator_one_body_sound (tol : Rat) (A B prior : List (List (Nat × Nat) × GQ))
+    (hA : ∀ e ∈ A, OneBody e.1) (hB : ∀ e ∈ B, OneBody e.1) (s u : Nat) :
+    den (phiF s u) (dcCommutator tol A B prior) =
+      A.foldl (fun acc e => commRow s u e.1 e.2 B acc) (den (phiF s u) prior) :=
+  dcCommutator_oneBody tol s u A B hA hB prior
 
 example : dcOneOne [(2, 1), (1, 0)] [(1, 1), (0, 0)] ⟨3, 0⟩ [] = [([(2, 1), (0, 0)], ⟨0 + 3, 0 + 0⟩)] := by decide +kernel
 
